@@ -157,7 +157,28 @@ def main(tier, seed, replay=None):
     has_release = lambda h: any(o == "RELEASE" for o, _ in h)  # noqa
     mcases = [[14, len(h)] + [x for k, (oc, w) in enumerate(h) for x in (OUTCOMES.index(oc), int(w and k > 0 and h[k - 1][0] != "block"))] if not has_release(h) else [14, 0] for h, _, _ in hists]
     mouts = None
+    rel_outs = {}
     if ok:
+        try:
+            rel_idx = [i for i, (h, _, _) in enumerate(hists) if has_release(h)]
+            rcases = []
+            for i in rel_idx:
+                h = hists[i][0]
+                c, nsub = [21], 0
+                for k, (oc_, w) in enumerate(h):
+                    if oc_ == "RELEASE":
+                        # w is the history index of the blocked exec: its number among the submissions
+                        c += [1, sum(1 for o2, _ in h[:w] if o2 != "RELEASE"), 0]
+                    else:
+                        code = 4 if oc_ in ("block", "blockrel") else OUTCOMES.index(oc_)
+                        c += [0, code, int(bool(w) and k > 0 and h[k - 1][0] not in ("block", "blockrel", "RELEASE"))]
+                        nsub += 1
+                rcases.append(c)
+            if rcases:
+                for i, o_ in zip(rel_idx, Model().run(rcases)):
+                    rel_outs[i] = o_
+        except Exception as e:  # noqa
+            ck.broke("correspondence", "modelrun-exec-release", repr(e))
         try:
             mouts = Model().run(mcases)
         except Exception as e:  # noqa
@@ -202,6 +223,15 @@ def main(tier, seed, replay=None):
                 want = {"ret": "closed-ok", "raise": "closed-error", "exit": "closed-error", "int": "closed-error"}[oc]
                 if not obs[k][2].startswith(want):
                     ck.fail("channel-end-state-wrong:" + oc, ex)
+        if mouts is not None and has_release(hist) and rel_outs.get(idx) is not None:
+            # the model with RELEASE under its fair scheduler: same answers, same start order
+            mo = rel_outs[idx]
+            sep = mo.index(-1)
+            mres = ["ran" if x == 0 else "deadlock" if x == 1 else "nothing" for x in mo[:sep]]
+            gsub = [g for g, (oc_, _) in zip(got, hist) if oc_ != "RELEASE"]
+            ck.count("release_histories_vs_model")
+            if mres != gsub:
+                ck.broke("correspondence", "exec-release-model-vs-impl", {"case": ex, "model": mres, "impl": gsub})
         if mouts is not None and not has_release(hist):
             mo = mouts[idx]
             sep = mo.index(-1)
